@@ -12,6 +12,7 @@ mod sym;
 mod term;
 mod tracker;
 mod util;
+mod valdiff;
 mod valgrid;
 mod vars;
 
@@ -32,6 +33,7 @@ fn main() {
         "vars" => vars::main(rest),
         "valgrid" => valgrid::main(rest),
         "calc" => calc::main(rest),
+        "valdiff" => valdiff::main(rest),
         "fuzz-calc" => fuzz_calc::main(rest),
         "fuzz-val" => valgrid::main_fuzz(rest),
         "tables" => fuzz::main_tables(rest),
